@@ -55,6 +55,11 @@ CRAFTED.append(("static T: [&str; 3] = [" + '"entry", ' * 9000 + "]; " + 'log::w
 CRAFTED.append(("\n" * 70000 + 'info!("line seventy thousand and one");\n').encode("utf-8"))
 
 
+# macro names that are one character longer than a configured one, in every position
+for _n in ("pinfo", "_warn", "xerror", "éinfo", "infox", "info_", "i", "w", "_", "log::xinfo", "x::info", "l::info", "::info", "::log::info", "log::", "::"):
+    CRAFTED.append(('%s!("one character off");\n%s!(a = 1; "with a key");\n' % (_n, _n)).encode("utf-8"))
+
+
 # very deep nesting (a recursive recogniser needs a stack frame per level): 150 000 closed levels of each bracket kind in every
 # argument position
 for _o, _c in ((b"(", b")"), (b"[", b"]"), (b"{", b"}"), (b"/*", b"*/")):
@@ -288,6 +293,14 @@ def special_work(job):
                                       "case": {"special": [seed, i]}})
         elif not good_done:
             res["violations"].append({"signature": "C17.good-file-not-processed-next-to-special-files|%s" % mode, "detail": {"stdout": rec.out[-400:], "exit": rec.ended()},
+                                      "case": {"special": [seed, i]}})
+    # a tree in which no in-scope file can be read as text at all
+    for mode in ("check", "edit"):
+        rec, _ = run_files(built, {"src/latin1.rs": b'fn a() { info!("caf\xe9"); }\n', "src/utf16.rs": b"\xff\xfef\x00n\x00", "src/sub/bin.rs": bytes(range(128, 256))},
+                           bool(i % 2), mode, 60)
+        res["evaluations"] += 1
+        if bad(rec):
+            res["violations"].append({"signature": "C17.%s|no-readable-file-at-all|%s" % (bad(rec), mode), "detail": {"stderr": rec.err[-300:], "stdout": rec.out[-300:]},
                                       "case": {"special": [seed, i]}})
     res["nontrivial"].append("special|%d" % (i % 2))
     res["counters"]["trees_with_special_files"] = 1
